@@ -528,6 +528,32 @@ impl<'a> Sim<'a> {
     }
 }
 
+/// Verification hooks, compiled only with `--cfg turmoil_verif`.
+#[allow(unexpected_cfgs)]
+mod verif_hooks {
+    #[cfg(turmoil_verif)]
+    impl super::Sim<'_> {
+        /// Read-only: `(udp binds, tcp listeners, tcp stream sockets,
+        /// multicast memberships)` currently registered for the host at
+        /// `addr`. Unlike the public API this also works while the host is
+        /// crashed.
+        pub fn verif_socket_counts(
+            &self,
+            addr: impl crate::ToIpAddr,
+        ) -> (usize, usize, usize, usize) {
+            let mut world = self.world.borrow_mut();
+            let ip = world.lookup(addr);
+            let (u, l, s) = world
+                .hosts
+                .get(&ip)
+                .expect("missing host")
+                .verif_socket_counts();
+            let m = world.multicast_groups.verif_memberships_of(ip);
+            (u, l, s, m)
+        }
+    }
+}
+
 #[cfg(test)]
 mod test {
     use rand::Rng;
